@@ -177,6 +177,30 @@ def apply_body_rules(rw, src, f, body_open, body_close, loops, cfg):
                 rw.replace(q + 1, q + 2, ".vx_set(", "R22-index-assign")
                 rw.replace(cl, cl + 2, ",", "R22-index-assign")
                 rw.insert(e, ")", "R22-index-assign")
+    # R22b: `v[i] += e;` / `v[i] -= e;` / `v[i]` (read) on a named shim vector -> `v.vx_add_at(i, e);` / `v.vx_sub_at(i, e);` / `v.vx_at(i)`
+    for name in f.opts.get("index_vector", ()):
+        for q in range(body_open + 1, body_close):
+            if toks[q].kind == "ident" and toks[q].text == name and toks[q + 1].text == "[" and toks[q - 1].text != ".":
+                cl = src.pairs[q + 1]
+                if toks[cl + 1].text in ("+=", "-="):
+                    e = cl + 2
+                    while toks[e].text != ";":
+                        e = src.pairs[e] + 1 if toks[e].text in ("(", "[", "{") else e + 1
+                    rw.replace(q + 1, q + 2, ".vx_add_at(" if toks[cl + 1].text == "+=" else ".vx_sub_at(", "R22-index-assign")
+                    rw.replace(cl, cl + 2, ",", "R22-index-assign")
+                    rw.insert(e, ")", "R22-index-assign")
+                elif toks[cl + 1].text not in ("=",):
+                    rw.replace(q + 1, q + 2, ".vx_at(", "R22-index-read")
+                    rw.replace(cl, cl + 1, ")", "R22-index-read")
+    # R22c: `v += e;` on a named shim vector / matrix -> `v.vx_add_assign(e);`  (AddAssign spelled as a call)
+    for name in f.opts.get("add_assign", ()):
+        for q in range(body_open + 1, body_close):
+            if toks[q].kind == "ident" and toks[q].text == name and toks[q + 1].text == "+=" and toks[q - 1].text in (";", "{", "}"):
+                e = q + 2
+                while toks[e].text != ";":
+                    e = src.pairs[e] + 1 if toks[e].text in ("(", "[", "{") else e + 1
+                rw.replace(q + 1, q + 2, ".vx_add_assign(", "R22-add-assign")
+                rw.insert(e, ")", "R22-add-assign")
     # R12: `for x in &mut E {`  ->  `for x in E.iter_mut() {`   (IntoIterator for &mut Vec<T> is iter_mut())
     for lp in loops:
         if lp["kind"] == "for" and toks[lp["in"] + 1].text == "&" and toks[lp["in"] + 2].text == "mut":
@@ -243,6 +267,11 @@ def apply_body_rules(rw, src, f, body_open, body_close, loops, cfg):
             if toks[q].kind == "ident" and toks[q].text == "continue":
                 raise Undecided(f"{src.rel}:{toks[q].line}: `continue` inside an enumerate() loop")
         pat = src.text[toks[parts[1][0]].start:toks[parts[1][1] - 1].end]
+        if pat.startswith("&") and pat[1:].strip().isidentifier():
+            # R27: a reference pattern `&x` is bound through a named reference: `for vx_r in E { let x = *vx_r; ..`
+            nm = pat[1:].strip()
+            rw.insert_after(bo, f" let {nm} = *vx_r_{nm};", "R27-ref-pattern")
+            pat = f"vx_r_{nm}"
         rw.replace(kw + 1, pc + 1, pat, "R5-enumerate")
         rw.replace(en, en + 4, "", "R5-enumerate")
         first = kw - 2 if lp["label"] else kw
